@@ -328,7 +328,7 @@ def check_files(idx_a):
         if [(t.subject.pair, t.predicate.pair, t.object.pair) for t in back] != [(t.subject.pair, t.predicate.pair, t.object.pair) for t in triples]:
             fails.append((f"triples-file-round-trip-differs/{ext}/reference_cls", "NamableReference"))
     # custom headers (also ones that look like comments or need quoting)
-    for header in (["#subject", "predicate", "object"], ['s"x', "p\ty", "o"], ["", "", ""]):
+    for header in (["#subject", "predicate", "object"], ['s"x', "p\ty", "o"], ["", "", ""], ["rdf:subject", "rdf:predicate", "rdf:object"], ["a:1", "a:1", "a:1"]):
         n += 1
         path = os.path.join(tmpdir(), f"{os.getpid()}.h.tsv")
         try:
@@ -339,6 +339,24 @@ def check_files(idx_a):
             continue
         if back != triples[:3]:
             fails.append(("triples-file-round-trip-differs/custom-header", f"header {header}: wrote 3 triples, read back {len(back)}"))
+    # triples produced on the fly by a one-shot stream (each object lives only while it is being written), and references
+    # that carry names (a name never matters)
+    for label, make in (("lazy-stream", lambda: (Triple(subject=Reference(prefix=p, identifier=i), predicate=Reference(prefix=p2, identifier=i2), object=Reference(prefix=p, identifier=i2))
+                                               for p, i in FILE_REFS for p2, i2 in FILE_REFS[:4])),
+                        ("named-references", lambda: [Triple(subject=NamedReference(prefix=p, identifier=i, name="five"), predicate=NamableReference(prefix=p, identifier=i, name="N ! M"), object=NamableReference(prefix=p, identifier=i))
+                                                      for p, i in FILE_REFS])):
+        n += 1
+        path = os.path.join(tmpdir(), f"{os.getpid()}.l.tsv")
+        try:
+            expected = [(t_.subject.pair, t_.predicate.pair, t_.object.pair) for t_ in make()]
+            write_triples(make(), path)
+            back = [(t_.subject.pair, t_.predicate.pair, t_.object.pair) for t_ in read_triples(path)]
+        except Exception as e:  # noqa
+            fails.append((f"triples-file-round-trip-raises/{label}", f"{type(e).__name__}: {str(e)[:80]}"))
+            continue
+        if back != expected:
+            bad = next(((x, y) for x, y in zip(expected, back) if x != y), (expected[:1], back[:1]))
+            fails.append((f"triples-file-round-trip-differs/{label}", f"{len(expected)} triples written, {len(back)} read; first difference: wrote {bad[0]!r}, read {bad[1]!r}"))
     t = Triple.from_curies("a:1", ":x", "é:x:y")
     if (t.subject.pair, t.predicate.pair, t.object.pair) != (("a", "1"), ("", "x"), ("é", "x:y")):
         fails.append(("Triple.from_curies-differs", repr(t)))
